@@ -44,6 +44,9 @@ def cases(draw):
         recipe = draw(gen.int_box_recipe(dims=(1, 2, 3, 4, 5), densities=(10, 6, 12), families=OUTSIDE))
     iters = st.one_of(st.sampled_from([1, 2, 3, 20, 40, 100, 400, 2000]), st.integers(5, 400))
     params = draw(gen.solver_params(recipe["n"], recipe["density"], iters, cheap=True))
+    sp = draw(gen.start_points(recipe, outside=True))
+    if sp is not None:
+        params = dict(params, startPoint=sp)      # a start point, possibly outside the box: nothing is evaluated there
     case = {"recipe": recipe, "params": params, "refine": draw(st.integers(0, 3)) > 0}
     if draw(st.integers(0, 4)) == 0:
         # the refinement is requested explicitly (Solver.DoLocalRefinement(k), k = -1 means 5 % of itersLimit) after a
@@ -140,6 +143,7 @@ def body(case):
     out = leaves_box(recipe["obj"])
     classes = ["N=%d" % run.n, "refine=%s" % case["refine"], "family=" + recipe["obj"]["family"],
                "explicit-DoLocalRefinement" if ex else "via-Solve",
+               "startPoint" if case["params"].get("startPoint") else "no-startPoint",
                "int-typed-bounds" if (recipe.get("style") or {}).get("bounds") else "float-bounds",
                "decoy-solver" if case.get("decoy") is not None else "no-decoy",
                "descent-leaves-box=%s" % out, "local-evals>0" if len(log) > nglob else "local-evals=0"]
